@@ -16,7 +16,12 @@ import (
 // ruleFuncs maps a property id to its rule set.
 var ruleFuncs = map[string]func(p *Prog, r *Report){}
 
-func register(id string, f func(p *Prog, r *Report)) { ruleFuncs[id] = f }
+func register(id string, f func(p *Prog, r *Report)) {
+	ruleFuncs[id] = func(p *Prog, r *Report) {
+		f(p, r)
+		genericFor(id, p, r)
+	}
+}
 
 func main() {
 	prop := flag.String("prop", "", "property id (C01..C20)")
